@@ -251,7 +251,7 @@ func c07OnlyExpiredAs(c *Ctx, m *Module, ruleExp, ruleKey string) {
 		// the week key is end.Format(dateFormat)
 		kd := describe(mu.Key)
 		r.Check(ruleKey, "reports/grouping key is the recorded end date", m.Pos(mu.Pos()),
-			strings.HasPrefix(kd, "(time.Time).Format((*internal/upload.uploader).counterDateSpan(") && strings.Contains(kd, "#1, *global:internal/upload.dateFormat)"), "got "+kd)
+			strings.HasPrefix(kd, "(time.Time).Format((*internal/upload.uploader).counterDateSpan(") && strings.Contains(kd, `#1, "2006-01-02")`), "got "+kd)
 	}
 	r.Check(ruleExp, "reports/has the per-week append", m.Pos(rep.Pos()), n == 1, fmt.Sprintf("%d append sites", n))
 	// createReport and deleteFiles receive exactly those lists
